@@ -26,8 +26,9 @@ func Spec() *explore.Spec {
 	for _, d := range drivers() {
 		d := d
 		sp.Families = append(sp.Families, &explore.Family{
-			Name:       d.name,
-			ShardDepth: 4,
+			Name:        d.name,
+			ShardDepth:  4,
+			HangSeconds: 60, // an execution takes microseconds: a worker that stands still that long is blocked for good
 			Bound: func(tier string) int {
 				if b := os.Getenv("VERIF_C09_BOUND"); b != "" {
 					n, _ := strconv.Atoi(b)
